@@ -689,6 +689,11 @@ class CellsEncoder(BaseEncoder):
         return Instruction(self.pickle_value)
 
 
+def has_explicit_refmode(ref):
+    """True if the mode of ``ref`` needs to be written with its value"""
+    return ref.refmode in ("absolute", "relative")
+
+
 class BaseSelector:
     classes = []
 
@@ -740,9 +745,15 @@ class LiteralEncoder(BaseEncoder):
     def encode(self):
         # True, False, None
         if isinstance(self.target.value, bool) or isinstance(self.target.value, type(None)):
-            return str(self.target.value)
+            literal = str(self.target.value)
         else:
-            return json.dumps(self.target.value, ensure_ascii=False)
+            literal = json.dumps(self.target.value, ensure_ascii=False)
+
+        if has_explicit_refmode(self.target):
+            return "(\"Literal\", %s, \"%s\")" % (
+                literal, self.target.refmode)
+        else:
+            return literal
 
 
 class IOSpecEncoder(BaseEncoder):
@@ -758,7 +769,11 @@ class IOSpecEncoder(BaseEncoder):
     def encode(self):
         value_id = id(self.target.value)
         spec_id = self.writer.value_id_map[value_id]
-        return "(\"IOSpec\", %s, %s)" % (value_id, spec_id)
+        if has_explicit_refmode(self.target):
+            return "(\"IOSpec\", %s, %s, \"%s\")" % (
+                value_id, spec_id, self.target.refmode)
+        else:
+            return "(\"IOSpec\", %s, %s)" % (value_id, spec_id)
 
     def pickle_value(self):
         key = id(self.target.value)
@@ -781,7 +796,11 @@ class ModuleEncoder(BaseEncoder):
             return isinstance(value, types.ModuleType)
 
     def encode(self):
-        return "(\"Module\", \"%s\")" % self.target.value.__name__
+        if has_explicit_refmode(self.target):
+            return "(\"Module\", \"%s\", \"%s\")" % (
+                self.target.value.__name__, self.target.refmode)
+        else:
+            return "(\"Module\", \"%s\")" % self.target.value.__name__
 
 
 class PickleEncoder(BaseEncoder):
@@ -797,7 +816,11 @@ class PickleEncoder(BaseEncoder):
             self.writer.pickledata[key] = value
 
     def encode(self):
-        return "(\"Pickle\", %s)" % id(self.target.value)
+        if has_explicit_refmode(self.target):
+            return "(\"Pickle\", %s, \"%s\")" % (
+                id(self.target.value), self.target.refmode)
+        else:
+            return "(\"Pickle\", %s)" % id(self.target.value)
 
     def instruct(self):
         return Instruction(self.pickle_value)
@@ -1181,7 +1204,7 @@ class RefAssignParser(BaseAssignParser):
 
         if (isinstance(self.obj, Model)
                 or not isinstance(decoder, TupleDecoder)
-                or decoder.size() < 3):
+                or decoder.size() <= decoder.REFMODE_POS):
             setter = Instruction.from_method(
                 obj=self.obj,
                 method="__setattr__",
@@ -1189,7 +1212,7 @@ class RefAssignParser(BaseAssignParser):
                 arghook=arghook
             )
         else:
-            refmode = decoder.elm(2)
+            refmode = decoder.elm(decoder.REFMODE_POS)
             setter = Instruction.from_method(
                 obj=self.obj,
                 method="set_ref",
@@ -1428,6 +1451,7 @@ class ValueDecoder:
 
 class TupleDecoder(ValueDecoder):
     DECTYPE = None
+    REFMODE_POS = 2     # Index of the optional refmode element
 
     def elm(self, index, decoder=ast.literal_eval):
         return decoder(self.atok.get_text(self.node.elts[index]))
@@ -1464,6 +1488,7 @@ class InterfaceDecoder(TupleDecoder):
 class IOSpecDecoder(TupleDecoder):
     DECTYPE = "IOSpec"
     DECTYPE_COMPAT = "DataSpec"     # for backward compatibility > mx v0.20.0
+    REFMODE_POS = 3
 
     def decode(self):
         return self.elm(1)
@@ -1506,12 +1531,23 @@ class LiteralDecoder(ValueDecoder):
             return json.loads(valstr)   # such as 3.1415, Infinity
 
 
+class LiteralTupleDecoder(TupleDecoder):
+    """Decoder of a literal written with its refmode"""
+    DECTYPE = "Literal"
+
+    def decode(self):
+        return LiteralDecoder(
+            self.reader, self.node.elts[1], self.atok,
+            self.obj, name=self.name, srcpath=self.srcpath).decode()
+
+
 class DecoderSelector(BaseSelector):
     classes = [
         InterfaceDecoder,
         IOSpecDecoder,
         ModuleDecoder,
         PickleDecoder,
+        LiteralTupleDecoder,
         LiteralDecoder
     ]
 
